@@ -110,6 +110,21 @@ FIRST = {
     'C10-6': ('reported', ['C02'], None), 'C10-7': ('reported', [], None),
     'C08-5': ('analysis-error', [], 'sweep machine: local multiples of dt, results of local steps consumed by an in-line QR, views of '
                                     'site tensors; in-place store into an existing site tensor reported (keeps dtype and shape)'),
+    # round 4: C06 (claimed late; first run = literal-shape version of the table engine)
+    'C06-1': ('reported', [], None),
+    'C06-2': ('reported', [], 'reported for the wrong reason at first (the conditional construction was not understood); now: undecided '
+                              'tests are forked and a parameter may be absent only on a path that tested it'),
+    'C06-3': ('silent', [], 'C06.R5 no memoising decorator on a constructor'),
+    'C06-4': ('analysis-error', [], 'C06.R4 placements compared as sets of starts under the path condition (partial evaluator forks on '
+                                    'undecided tests)'),
+    'C06-5': ('silent', [], 'string parameters that are only compared with literals are enumerated (every spelling of ftype)'),
+    'C06-6': ('analysis-error', [], 'partial evaluator: helpers, comprehensions over symbolic ranges, max() forked'),
+    'C06-7': ('analysis-error', [], 'partial evaluator: list families, dict(zip(..)), symbolic sequences; depth algebra instead of key '
+                                    'conventions'),
+    'C06-8': ('reported', [], 'reported for the wrong reason at first (soundness bug of the load-time inliner: list display substituted for '
+                              'a formal); now C06.R5: a filled mutable default is state shared between calls'),
+    'C06-9': ('analysis-error', [], 'storage-type rule extended to arrays built from values with np.array([...]); support rules evaluated '
+                                    'before the table rules'),
     'C09-5': ('analysis-error', [], 'sweep machine: loop peeling for tests on the first / last position, tests decided by the '
                                     'number-of-sites case, range(a, b, -1); step budget decided on elementary pieces; palindrome '
                                     'compared in a normal form of the schedule; C09.R4 step budget for L = 1, 2'),
